@@ -1,5 +1,6 @@
 import Fabio.Generated.C10
 import Fabio.Model.C10
+import Fabio.Props.C10
 /-!
 C10 — the tie by translation. `Fabio.Generated.C10.XBufSize` and `XUnmarshal` are produced on every run by the
 Go→Lean translator (`tools/factgen/xlate.go`) from the current `proxy/tcp/tls_clienthello.go`; they are what the
@@ -58,7 +59,7 @@ theorem midx_lt (d : List UInt8) (i : Nat) (h : i < d.length) : Model.C10.idx d 
 attribute [local simp] seq ifS Xlate.ret assign skip Xlate.len Xlate.idx obsModel
 
 theorem xbufsize_eq_model (data : List UInt8) :
-    obsBufSize (XBufSize.run { data := data }) = obsModel (clientHelloBufferSize data) := by
+    obsBufSize (XBufSize.run { p0 := data }) = obsModel (clientHelloBufferSize data) := by
   unfold XBufSize.run Xlate.run XBufSize.body clientHelloBufferSize
   by_cases h9 : data.length < 9
   · have h9' : (data.length : Int) < 9 := by omega
@@ -112,7 +113,7 @@ open XUnmarshal
 
 /-- The fields of the translated state that are dead at the end of an iteration of the name loop (each is assigned
 before it is read again): erased before comparing states. -/
-def core1 (s : St) : St := { s with d := [], nameType := 0, nameLen := 0 }
+def core1 (s : St) : St := { s with l6 := [], l8 := 0, l9 := 0 }
 
 /-- Observation of a flow: states up to the dead fields, the state of a `return` and the text of a panic dropped. -/
 def erase (core : St → St) : Flow Bool St → Flow Bool St
@@ -130,62 +131,449 @@ def exp1 (s : St) : R (Option (List UInt8)) → Flow Bool St
   | .panic _ => .panic ""
 
 /-- One round of the name loop in closed form. -/
-theorem loop1Body_eq (s : St) (h3 : 3 ≤ s.d.length) : loop1Body s =
-    (if s.d.length - 3 < be16 s.d[1] s.d[2] then
-      .ret false { s with nameType := s.d[0], nameLen := (be16 s.d[1] s.d[2] : Nat), d := s.d.drop 3 }
-    else if s.d[0] = 0 then
-      .brk { s with nameType := s.d[0], nameLen := (be16 s.d[1] s.d[2] : Nat), d := s.d.drop 3,
-                    m_serverName := (s.d.drop 3).take (be16 s.d[1] s.d[2]) }
+theorem loop1Body_eq (s : St) (h3 : 3 ≤ s.l6.length) : loop1Body s =
+    (if s.l6.length - 3 < be16 s.l6[1] s.l6[2] then
+      .ret false { s with l8 := s.l6[0], l9 := (be16 s.l6[1] s.l6[2] : Nat), l6 := s.l6.drop 3 }
+    else if s.l6[0] = 0 then
+      .brk { s with l8 := s.l6[0], l9 := (be16 s.l6[1] s.l6[2] : Nat), l6 := s.l6.drop 3,
+                    m_serverName := (s.l6.drop 3).take (be16 s.l6[1] s.l6[2]) }
     else
-      .next { s with nameType := s.d[0], nameLen := (be16 s.d[1] s.d[2] : Nat),
-                     d := (s.d.drop 3).drop (be16 s.d[1] s.d[2]) }) := by
-  have h3' : ¬ (s.d.length : Int) < 3 := by omega
-  have i0 := idxN_lt s.d 0 (by omega); have i1 := idxN_lt s.d 1 (by omega); have i2 := idxN_lt s.d 2 (by omega)
-  have sf := xsliceFrom_nat s.d 3 (by omega)
+      .next { s with l8 := s.l6[0], l9 := (be16 s.l6[1] s.l6[2] : Nat),
+                     l6 := (s.l6.drop 3).drop (be16 s.l6[1] s.l6[2]) }) := by
+  have h3' : ¬ (s.l6.length : Int) < 3 := by omega
+  have i0 := idxN_lt s.l6 0 (by omega); have i1 := idxN_lt s.l6 1 (by omega); have i2 := idxN_lt s.l6 2 (by omega)
+  have sf := xsliceFrom_nat s.l6 3 (by omega)
   simp at sf
   unfold loop1Body
   simp [*]
-  generalize be16 s.d[1] s.d[2] = nl
-  by_cases hl : s.d.length - 3 < nl
+  generalize be16 s.l6[1] s.l6[2] = nl
+  by_cases hl : s.l6.length - 3 < nl
   · simp [hl]
-  · have st := xsliceTo_nat (s.d.drop 3) nl (by simp; omega)
-    have sf2 := xsliceFrom_nat (s.d.drop 3) nl (by simp; omega)
-    by_cases ht : s.d[0] = 0
+  · have st := xsliceTo_nat (s.l6.drop 3) nl (by simp; omega)
+    have sf2 := xsliceFrom_nat (s.l6.drop 3) nl (by simp; omega)
+    by_cases ht : s.l6[0] = 0
     · simp [hl, ht, st, brk]
-    · have hb : (s.d[0] == 0) = false := by simp [ht]
+    · have hb : (s.l6[0] == 0) = false := by simp [ht]
       simp [hl, ht, hb, sf2]
 
 /-- The name loop (`for len(d) > 0`): run from any state, the translated loop agrees with the model's `nameLoop`
 on the state's `d`; it touches only `d`, `nameType`, `nameLen` and, when a host_name entry is found, `m.serverName`. -/
 theorem loop1_spec (n : Nat) (s : St) :
-    erase core1 (loopN loop1Cond loop1Body n s) = exp1 s (nameLoop n s.d) := by
+    erase core1 (loopN loop1Cond loop1Body n s) = exp1 s (nameLoop n s.l6) := by
   induction n generalizing s with
   | zero => simp [nameLoop, loopN, erase, exp1]
   | succ n ih =>
     unfold nameLoop loopN
-    by_cases h0 : s.d.length = 0
-    · have : ¬ (0 : Int) < s.d.length := by omega
+    by_cases h0 : s.l6.length = 0
+    · have : ¬ (0 : Int) < s.l6.length := by omega
       simp [h0, loop1Cond, this, erase, exp1]
-    · have h0' : (0 : Int) < s.d.length := by omega
-      simp only [h0, h0', loop1Cond, Xlate.len, decide_true, if_false]
-      by_cases h3 : s.d.length < 3
-      · have h3' : (s.d.length : Int) < 3 := by omega
+    · have h0' : (0 : Int) < s.l6.length := by omega
+      have hc : loop1Cond s = V.ok true := by simp [loop1Cond]; omega
+      simp only [h0, if_false, hc]
+      by_cases h3 : s.l6.length < 3
+      · have h3' : (s.l6.length : Int) < 3 := by omega
         simp [h3, h3', loop1Body, erase, exp1]
-      · have m0 := midx_lt s.d 0 (by omega); have m1 := midx_lt s.d 1 (by omega); have m2 := midx_lt s.d 2 (by omega)
-        have msf := msliceFrom s.d 3 (by omega)
+      · have m0 := midx_lt s.l6 0 (by omega); have m1 := midx_lt s.l6 1 (by omega); have m2 := midx_lt s.l6 2 (by omega)
+        have msf := msliceFrom s.l6 3 (by omega)
         rw [loop1Body_eq s (by omega)]
         simp only [h3, if_false, m0, m1, m2, msf, R_bind_ok, List.length_drop]
-        generalize be16 s.d[1] s.d[2] = nl
-        by_cases hl : s.d.length - 3 < nl
+        generalize be16 s.l6[1] s.l6[2] = nl
+        by_cases hl : s.l6.length - 3 < nl
         · simp [hl, erase, exp1]
-        · have mst := msliceTo (s.d.drop 3) nl (by simp; omega)
-          have msf2 := msliceFrom (s.d.drop 3) nl (by simp; omega)
-          by_cases ht : s.d[0] = 0
+        · have mst := msliceTo (s.l6.drop 3) nl (by simp; omega)
+          have msf2 := msliceFrom (s.l6.drop 3) nl (by simp; omega)
+          by_cases ht : s.l6[0] = 0
           · simp [hl, ht, mst, erase, exp1, Model.C10.nameTypeHost, core1]
           · simp only [hl, ht, if_false, msf2, R_bind_ok, Model.C10.nameTypeHost]
             rw [ih]
             simp [exp1, core1]
 
+theorem ext16_toNat (a b : UInt8) : ((a.toUInt16 <<< (8 : UInt16)) ||| b.toUInt16).toNat = be16 a b := by
+  have ha := a.toNat_lt
+  have : a.toNat * 256 % 65536 = a.toNat * 256 := by omega
+  simp [be16, UInt16.toNat_or, UInt16.toNat_shiftLeft, Nat.shiftLeft_eq, this]
+
+theorem ext16_zero (a b : UInt8) :
+    ((a.toUInt16 <<< (8 : UInt16)) ||| b.toUInt16 == (0 : UInt16)) = decide (be16 a b = 0) := by
+  rw [← ext16_toNat]
+  generalize ((a.toUInt16 <<< (8 : UInt16)) ||| b.toUInt16) = x
+  cases h : (x == (0 : UInt16)) <;> simp_all [← UInt16.toNat_inj]
+
+/-- `loop1_spec` by cases, in the form the proof about the enclosing loop consumes. -/
+theorem loop1_cases (n : Nat) (s : St) :
+    (∃ nm s', nameLoop n s.l6 = .ok (some nm) ∧ loopN loop1Cond loop1Body n s = .next s' ∧
+        core1 s' = core1 { s with m_serverName := nm }) ∨
+    (∃ s', nameLoop n s.l6 = .ok none ∧ loopN loop1Cond loop1Body n s = .next s' ∧ core1 s' = core1 s) ∨
+    (∃ site s', nameLoop n s.l6 = .reject site ∧ loopN loop1Cond loop1Body n s = .ret false s') ∨
+    (∃ w w', nameLoop n s.l6 = .panic w ∧ loopN loop1Cond loop1Body n s = .panic w') := by
+  have h := loop1_spec n s
+  cases hm : nameLoop n s.l6 with
+  | ok o =>
+    cases o with
+    | some nm =>
+      left
+      rw [hm] at h
+      cases hl : loopN loop1Cond loop1Body n s <;> simp [hl, erase, exp1] at h
+      exact ⟨nm, _, rfl, rfl, h⟩
+    | none =>
+      right; left
+      rw [hm] at h
+      cases hl : loopN loop1Cond loop1Body n s <;> simp [hl, erase, exp1] at h
+      exact ⟨_, rfl, rfl, h⟩
+  | reject site =>
+    right; right; left
+    rw [hm] at h
+    cases hl : loopN loop1Cond loop1Body n s <;> simp [hl, erase, exp1] at h
+    subst h
+    exact ⟨site, _, rfl, rfl⟩
+  | panic w =>
+    right; right; right
+    rw [hm] at h
+    cases hl : loopN loop1Cond loop1Body n s <;> simp [hl, erase, exp1] at h
+    exact ⟨w, _, rfl, rfl⟩
+
+theorem loop1_cases' {n : Nat} {s : St} {fl : Flow Bool St} (hk : loopN loop1Cond loop1Body n s = fl) :
+    (∃ nm s', nameLoop n s.l6 = .ok (some nm) ∧ fl = .next s' ∧ core1 s' = core1 { s with m_serverName := nm }) ∨
+    (∃ s', nameLoop n s.l6 = .ok none ∧ fl = .next s' ∧ core1 s' = core1 s) ∨
+    (∃ site s', nameLoop n s.l6 = .reject site ∧ fl = .ret false s') ∨
+    (∃ w w', nameLoop n s.l6 = .panic w ∧ fl = .panic w') := by
+  subst hk; exact loop1_cases n s
+
+/-- What the enclosing code can see of a flow of the extension loop: the rebound `data` and `m.serverName` of a
+state it falls through with, a `return false`, a panic. -/
+inductive Out where
+  | next (data name : List UInt8)
+  | retFalse
+  | panicked
+  | other
+deriving DecidableEq
+
+def out0 : Flow Bool St → Out
+  | .next s => .next s.p0 s.m_serverName
+  | .ret false _ => .retFalse
+  | .panic _ => .panicked
+  | _ => .other
+
+def outR (data : List UInt8) : R (List UInt8) → Out
+  | .ok cur => .next data cur
+  | .reject _ => .retFalse
+  | .panic _ => .panicked
+
+/-- What one round of the extension loop does, in terms of the model (`serverNameExt` on the extension body when
+the extension number is 0). -/
+theorem loop0Body_spec (s : St) (h4 : 4 ≤ s.p0.length) :
+    out0 (loop0Body s) =
+      (if (s.p0.drop 4).length < be16 s.p0[2] s.p0[3] then Out.retFalse
+       else outR ((s.p0.drop 4).drop (be16 s.p0[2] s.p0[3]))
+         (if be16 s.p0[0] s.p0[1] = 0 then
+            serverNameExt ((s.p0.drop 4).take (be16 s.p0[2] s.p0[3])) s.m_serverName
+          else R.ok s.m_serverName)) := by
+  have h4' : ¬ (s.p0.length : Int) < 4 := by omega
+  have i0 := idxN_lt s.p0 0 (by omega); have i1 := idxN_lt s.p0 1 (by omega)
+  have i2 := idxN_lt s.p0 2 (by omega); have i3 := idxN_lt s.p0 3 (by omega)
+  have sf := xsliceFrom_nat s.p0 4 (by omega)
+  simp at sf
+  unfold loop0Body
+  generalize hlen : be16 s.p0[2] s.p0[3] = len
+  by_cases hl : s.p0.length - 4 < len
+  · simp [*, out0]
+  · have st := xsliceTo_nat (s.p0.drop 4) len (by simp; omega)
+    have sf2 := xsliceFrom_nat (s.p0.drop 4) len (by simp; omega)
+    have hmin : min len (s.p0.length - 4) = len := by omega
+    by_cases he : be16 s.p0[0] s.p0[1] = 0
+    · simp [*, ext16_zero]
+      generalize hd : List.take len (List.drop 4 s.p0) = d
+      have hdl : d.length = len := by subst hd; simp; omega
+      unfold serverNameExt
+      by_cases h2 : len < 2
+      · have : (len : Int) < 2 := by omega
+        simp [h2, this, out0, outR, hdl]
+      · have h2i : ¬ (len : Int) < 2 := by omega
+        have j0 := idxN_lt d 0 (by omega); have j1 := idxN_lt d 1 (by omega)
+        have n0 := midx_lt d 0 (by omega); have n1 := midx_lt d 1 (by omega)
+        have sfd := xsliceFrom_nat d 2 (by omega); have msfd := msliceFrom d 2 (by omega)
+        simp at sfd
+        simp [h2, h2i, hdl, j0, j1, n0, n1, sfd, msfd]
+        generalize hnl : be16 d[0] d[1] = namesLen
+        by_cases hn : len - 2 = namesLen
+        · have : ((len : Int) - 2 != (namesLen : Int)) = false := by simp; omega
+          have hn' : ((d.length : Int) - 2 != (namesLen : Int)) = false := by simp; omega
+          simp [hn, this, hn', hdl, loop]
+          generalize hk : loopN loop1Cond loop1Body _ _ = fl
+          rcases loop1_cases' hk with ⟨nm, s', hm, rfl, hc⟩ | ⟨s', hm, rfl, hc⟩ | ⟨site, s', hm, rfl⟩ | ⟨w, w', hm, rfl⟩
+          · simp at hm
+            simp [core1] at hc
+            simp [hm, hc, sf2, out0, outR]
+          · simp at hm
+            simp [core1] at hc
+            simp [hm, hc, sf2, out0, outR]
+          · simp at hm
+            simp [hm, out0, outR]
+          · simp at hm
+            simp [hm, out0, outR]
+        · have : ((len : Int) - 2 != (namesLen : Int)) = true := by simp; omega
+          have this2 : (((len - 2 : Nat) : Int) != (namesLen : Int)) = true := by simp; omega
+          simp [hn, this, this2, hdl, out0, outR]
+    · simp [*, ext16_zero, out0, outR]
+
+theorem loop0Body_short (s : St) (h : s.p0.length < 4) : ∃ s', loop0Body s = .ret false s' := by
+  have h' : (s.p0.length : Int) < 4 := by omega
+  unfold loop0Body
+  simp [h']
+
+/-- Observation of the extension loop as a whole: `m.serverName` when it runs to completion. -/
+def obsLoop0 : Flow Bool St → Option (Obs (List UInt8))
+  | .next s => some (.val s.m_serverName)
+  | .ret false _ => some .rejected
+  | .panic _ => some .panicked
+  | _ => none
+
+/-- The extension loop (`for len(data) != 0`) agrees with the model's `extLoop` on the state's `data` and
+`m.serverName`, for every fuel. -/
+theorem loop0_spec (n : Nat) (s : St) :
+    obsLoop0 (loopN loop0Cond loop0Body n s) = some (obsModel (extLoop n s.p0 s.m_serverName)) := by
+  induction n generalizing s with
+  | zero => simp [extLoop, loopN, obsLoop0]
+  | succ n ih =>
+    unfold extLoop loopN
+    by_cases h0 : s.p0.length = 0
+    · have : ((s.p0.length : Int) != 0) = false := by
+        have : s.p0 = [] := List.length_eq_zero_iff.mp h0
+        simp [this]
+      simp [h0, loop0Cond, this, obsLoop0]
+    · have h0' : ((s.p0.length : Int) != 0) = true := by
+        simp; intro h; simp [h] at h0
+      simp only [h0, loop0Cond, Xlate.len, h0', if_false]
+      by_cases h4 : s.p0.length < 4
+      · obtain ⟨s', hs'⟩ := loop0Body_short s h4
+        simp [h4, hs', obsLoop0]
+      · have hb := loop0Body_spec s (by omega)
+        have m0 := midx_lt s.p0 0 (by omega); have m1 := midx_lt s.p0 1 (by omega)
+        have m2 := midx_lt s.p0 2 (by omega); have m3 := midx_lt s.p0 3 (by omega)
+        have msf := msliceFrom s.p0 4 (by omega)
+        simp only [h4, if_false, m0, m1, m2, m3, msf, R_bind_ok, List.length_drop] at hb ⊢
+        generalize hlen : be16 s.p0[2] s.p0[3] = len at hb ⊢
+        by_cases hl : s.p0.length - 4 < len
+        · simp only [hl, if_true] at hb ⊢
+          cases hf : loop0Body s <;> simp [hf, out0] at hb
+          · rename_i r s'
+            cases r <;> simp at hb
+            simp [obsLoop0]
+        · simp only [hl, if_false] at hb ⊢
+          have mst := msliceTo (s.p0.drop 4) len (by simp; omega)
+          have msf2 := msliceFrom (s.p0.drop 4) len (by simp; omega)
+          have hX : (if be16 s.p0[0] s.p0[1] = Model.C10.extensionServerName then do
+                let d ← Model.C10.sliceTo (List.drop 4 s.p0) len
+                serverNameExt d s.m_serverName
+              else R.ok s.m_serverName) =
+              (if be16 s.p0[0] s.p0[1] = 0 then serverNameExt (List.take len (List.drop 4 s.p0)) s.m_serverName
+               else R.ok s.m_serverName) := by
+            simp [Model.C10.extensionServerName, mst]
+          rw [hX]
+          generalize (if be16 s.p0[0] s.p0[1] = 0 then serverNameExt (List.take len (List.drop 4 s.p0)) s.m_serverName
+               else R.ok s.m_serverName) = X at hb ⊢
+          cases X with
+          | ok cur =>
+            simp only [outR] at hb
+            cases hf : loop0Body s <;> simp [hf, out0] at hb
+            · rename_i s'
+              simp only [R_bind_ok, msf2]
+              rw [ih s', hb.1, hb.2, List.drop_drop]
+            · rename_i r s'
+              cases r <;> simp at hb
+          | reject site =>
+            simp only [outR] at hb
+            cases hf : loop0Body s <;> simp [hf, out0] at hb
+            · rename_i r s'
+              cases r <;> simp at hb
+              simp [obsLoop0]
+          | panic w =>
+            simp only [outR] at hb
+            cases hf : loop0Body s <;> simp [hf, out0] at hb
+            · rename_i r s'
+              cases r <;> simp at hb
+            · simp [obsLoop0]
+
+theorem loop0_spec' {n : Nat} {s : St} {fl : Flow Bool St} (hk : loopN loop0Cond loop0Body n s = fl) :
+    obsLoop0 fl = some (obsModel (extLoop n s.p0 s.m_serverName)) := by
+  subst hk; exact loop0_spec n s
+
+/-- `m.unmarshal(data)` returns `true` with `m.serverName` set, or `false`. -/
+def obsUnmarshal : V (Bool × St) → Obs (List UInt8)
+  | .ok (true, s) => .val s.m_serverName
+  | .ok (false, _) => .rejected
+  | .panic _ => .panicked
+
+/-- **The translated `clientHelloMsg.unmarshal` equals the model's `unmarshal`, for every input.** -/
+theorem xunmarshal_eq_model (data : List UInt8) :
+    obsUnmarshal (XUnmarshal.run { p0 := data }) = obsModel (unmarshal data) := by
+  unfold XUnmarshal.run Xlate.run XUnmarshal.body unmarshal parseHead
+  by_cases h42 : data.length < 42
+  · have h42' : (data.length : Int) < 42 := by omega
+    simp [h42, h42', obsUnmarshal, Model.C10.minHelloLen]
+  · have h42' : ¬ (data.length : Int) < 42 := by omega
+    have i4 := idxN_lt data 4 (by omega); have i5 := idxN_lt data 5 (by omega); have i38 := idxN_lt data 38 (by omega)
+    have m4 := midx_lt data 4 (by omega); have m5 := midx_lt data 5 (by omega); have m38 := midx_lt data 38 (by omega)
+    have sl := xslice_nat data 6 38 (by omega); have msl := mslice data 6 38 (by omega)
+    simp at sl
+    generalize hsid : data[38].toNat = sid
+    have hsid8 : sid < 256 := by subst hsid; exact data[38].toNat_lt
+    simp [h42, h42', i4, i5, i38, m4, m5, m38, sl, msl, hsid, Model.C10.minHelloLen, Model.C10.randomOff,
+      Model.C10.sidLenOff, Model.C10.sidOff, Model.C10.maxSidLen, obsUnmarshal]
+    cases hb : (decide ((32 : Int) < sid) || decide ((data.length : Int) < 39 + (sid : Int))) <;> simp [hb] <;> simp at hb
+    · have hs2 : ¬ (32 < sid ∨ data.length < 39 + sid) := by omega
+      have sl2 := xslice_nat data 39 (39 + sid) (by omega); have msl2 := mslice data 39 (39 + sid) (by omega)
+      have sf1 := xsliceFrom_nat data (39 + sid) (by omega); have msf1 := msliceFrom data (39 + sid) (by omega)
+      simp at sl2 sf1
+      simp [sl2, sf1, msl2, msf1, hs2]
+      generalize hd1 : List.drop (39 + sid) data = d1
+      have hl1 : d1.length = data.length - (39 + sid) := by subst hd1; simp
+      rw [← hl1]
+      clear hb hs2 sl2 msl2 sf1 msf1 sl msl i4 i5 i38 m4 m5 m38 hl1 hd1 hsid hsid8 h42'
+      -- cipher suites
+      unfold parseCiphers
+      by_cases c2 : d1.length < 2
+      · have c2' : (d1.length : Int) < 2 := by omega
+        simp [c2, c2']
+      · have c2' : ¬ (d1.length : Int) < 2 := by omega
+        have j0 := idxN_lt d1 0 (by omega); have j1 := idxN_lt d1 1 (by omega)
+        have n0 := midx_lt d1 0 (by omega); have n1 := midx_lt d1 1 (by omega)
+        simp [c2, c2', j0, j1, n0, n1]
+        generalize be16 d1[0] d1[1] = csl
+        have htm : ((csl : Int).tmod 2 == 1) = decide (csl % 2 = 1) := by
+          have : (csl : Int).tmod 2 = ((csl % 2 : Nat) : Int) := by
+            rw [Int.tmod_eq_emod_of_nonneg (by omega)]; omega
+          rw [this]
+          cases h : decide (csl % 2 = 1) <;> simp at h ⊢ <;> omega
+        cases hb : ((csl : Int).tmod 2 == 1 || decide ((d1.length : Int) < 2 + (csl : Int))) <;> simp [hb] <;>
+          rw [htm] at hb <;> simp at hb
+        · have c3 : ¬ (csl % 2 = 1 ∨ d1.length < 2 + csl) := by omega
+          have sf2 := xsliceFrom_nat d1 (2 + csl) (by omega); have msf2 := msliceFrom d1 (2 + csl) (by omega)
+          simp at sf2
+          simp [c3, sf2, msf2]
+          generalize hd2 : List.drop (2 + csl) d1 = d2
+          have hl2 : d2.length = d1.length - (2 + csl) := by subst hd2; simp
+          rw [← hl2]
+          clear hb c3 sf2 msf2 htm j0 j1 n0 n1 c2 c2' hl2 hd2
+          -- compression methods
+          unfold parseCompression
+          by_cases c4 : d2.length < 1
+          · have c4' : (d2.length : Int) < 1 := by omega
+            simp [c4, c4']
+          · have c4' : ¬ (d2.length : Int) < 1 := by omega
+            have k0 := idxN_lt d2 0 (by omega); have o0 := midx_lt d2 0 (by omega)
+            simp [c4, c4', k0, o0]
+            generalize d2[0].toNat = cml
+            by_cases c5 : d2.length < 1 + cml
+            · have c5' : (d2.length : Int) < 1 + (cml : Int) := by omega
+              simp [c5, c5']
+            · have c5' : ¬ (d2.length : Int) < 1 + (cml : Int) := by omega
+              have sl3 := xslice_nat d2 1 (1 + cml) (by omega); have msl3 := mslice d2 1 (1 + cml) (by omega)
+              have sf3 := xsliceFrom_nat d2 (1 + cml) (by omega); have msf3 := msliceFrom d2 (1 + cml) (by omega)
+              simp at sl3 sf3
+              simp [c5, c5', sl3, sf3, msl3, msf3]
+              generalize hd3 : List.drop (1 + cml) d2 = d3
+              have hl3 : d3.length = d2.length - (1 + cml) := by subst hd3; simp
+              rw [← hl3]
+              clear sl3 msl3 sf3 msf3 c5 c5' k0 o0 c4 c4' hl3 hd3
+              -- extension block
+              unfold parseExtensions
+              by_cases c6 : d3.length = 0
+              · have c6' : ((d3.length : Int) == 0) = true := by simp [c6]
+                simp [c6, c6']
+              · have c6' : ((d3.length : Int) == 0) = false := by simp [c6]
+                by_cases c7 : d3.length < 2
+                · have c7' : (d3.length : Int) < 2 := by omega
+                  simp [c6, c6', c7, c7']
+                · have c7' : ¬ (d3.length : Int) < 2 := by omega
+                  have p0 := idxN_lt d3 0 (by omega); have p1 := idxN_lt d3 1 (by omega)
+                  have q0 := midx_lt d3 0 (by omega); have q1 := midx_lt d3 1 (by omega)
+                  have sf4 := xsliceFrom_nat d3 2 (by omega); have msf4 := msliceFrom d3 2 (by omega)
+                  simp at sf4
+                  simp [c6, c6', c7, c7', p0, p1, q0, q1, sf4, msf4]
+                  generalize be16 d3[0] d3[1] = el
+                  cases hb : ((el : Int) != ((d3.length - 2 : Nat) : Int)) <;> simp [hb] <;> simp at hb
+                  · have c8 : el = d3.length - 2 := by omega
+                    simp only [loop]
+                    generalize hk : loopN loop0Cond loop0Body _ _ = fl
+                    have h := loop0_spec' hk
+                    simp at h
+                    simp [c8]
+                    cases fl <;> simp [obsLoop0] at h
+                    · rename_i s'
+                      simp [← h]
+                    · rename_i r s'
+                      cases r <;> simp at h
+                      simp [← h]
+                    · simp [← h]
+                  · have c8 : ¬ el = d3.length - 2 := by omega
+                    simp [c8]
+        · have c3 : csl % 2 = 1 ∨ d1.length < 2 + csl := by omega
+          simp [c3]
+    · have hs2 : 32 < sid ∨ data.length < 39 + sid := by omega
+      simp [hs2]
+
 end U
+
+/-! ### The property theorems, transferred to the translated source
+
+`Props/C10.lean` proves the property of the hand-written model. By the two equalities above the same statements
+hold of the definitions translated from the current Go source. -/
+
+open U in
+/-- No input makes the translated `unmarshal` panic — in particular neither loop runs out of the fuel
+(`len + 1`) the translator was told to supply: both loops terminate. -/
+theorem xunmarshal_no_panic (data : List UInt8) (w : String) : XUnmarshal.run { p0 := data } ≠ .panic w := by
+  intro h
+  have e := xunmarshal_eq_model data
+  have np := Props.C10.unmarshal_no_panic data
+  rw [h] at e
+  cases hm : unmarshal data <;> simp [hm, obsUnmarshal, obsModel, R.isPanic] at e np
+
+/-- No input makes the translated `clientHelloBufferSize` panic. -/
+theorem xbufsize_no_panic (data : List UInt8) (w : String) : XBufSize.run { p0 := data } ≠ .panic w := by
+  intro h
+  have e := xbufsize_eq_model data
+  have np := Props.C10.bufsize_no_panic data
+  rw [h] at e
+  cases hm : clientHelloBufferSize data <;> simp [hm, obsBufSize, obsModel, R.isPanic] at e np
+
+open U in
+/-- For every well-formed hello the translated `unmarshal` returns `true` with `m.serverName = sniOf h`
+(`parse_encode` of the model, at full strength: every extension list). -/
+theorem xparse_encode (h : Hello) (hw : WellFormed h) :
+    ∃ s, XUnmarshal.run { p0 := encode h } = .ok (true, s) ∧ s.m_serverName = sniOf h := by
+  have e := xunmarshal_eq_model (encode h)
+  have pe := Props.C10.parse_encode h hw
+  have hm : unmarshal (encode h) = .ok (sniOf h) := by
+    unfold readServerName at pe
+    cases hu : unmarshal (encode h) <;> simp [hu] at pe
+    simp [pe]
+  rw [hm] at e
+  cases hr : XUnmarshal.run { p0 := encode h } with
+  | panic w => simp [hr, obsUnmarshal, obsModel] at e
+  | ok p =>
+    obtain ⟨r, s⟩ := p
+    cases r <;> simp [hr, obsUnmarshal, obsModel] at e
+    exact ⟨s, rfl, e⟩
+
+/-- The size the translated `clientHelloBufferSize` answers never exceeds the first TLS record
+(5-byte header + record length, the record length being at most 16384), and is at least 10. -/
+theorem xbufsize_le_record (data : List UInt8) (n : Int) (s : XBufSize.St)
+    (h : XBufSize.run { p0 := data } = .ok ((n, none), s)) :
+    ∃ h9 : 9 ≤ data.length, 10 ≤ n ∧ n ≤ (be16 data[3] data[4] : Nat) + 5 ∧ be16 data[3] data[4] ≤ 16384 := by
+  have e := xbufsize_eq_model data
+  rw [h] at e
+  by_cases hn : 0 ≤ n
+  · simp [obsBufSize, hn] at e
+    cases hm : clientHelloBufferSize data <;> simp [hm, obsModel] at e
+    obtain ⟨h9, _, h10, hle, hmax, _⟩ := Props.C10.bufsize_le_record data _ hm
+    exact ⟨h9, by omega, by omega, hmax⟩
+  · simp [obsBufSize, hn] at e
+    have np := Props.C10.bufsize_no_panic data
+    cases hm : clientHelloBufferSize data <;> simp [hm, obsModel, R.isPanic] at e np
+
+/-- Non-vacuity: a concrete hello header on which the translated function answers a size. -/
+example : ∃ s, XBufSize.run { p0 := [0x16, 3, 1, 0, 50, 1, 0, 0, 46] } = .ok ((55, none), s) := ⟨_, rfl⟩
 
 end Fabio.Props.C10Xlate
